@@ -50,6 +50,7 @@ const (
 	KStruct
 	KError
 	KTuple
+	KOpaque // a parameter the translation only passes along (Name = its Lean type)
 )
 
 type Type struct {
@@ -83,6 +84,8 @@ func (t *Type) Lean() string {
 		return t.Name
 	case KError:
 		return "GoError"
+	case KOpaque:
+		return t.Name
 	case KTuple:
 		parts := make([]string, len(t.Tup))
 		for i, x := range t.Tup {
@@ -121,6 +124,21 @@ type Config struct {
 	Structs map[string]*Struct // Go type name → structure
 	Fuel    map[string]string  // "<func>#<n>" → Lean Nat expression over the variables in scope; default: sum of the lengths of all Bytes variables + 2
 	Rename  map[string]string  // Go function name → Lean name (default: the same)
+	// ExtraParams are prepended to every generated definition (and passed along): what the receiver
+	// or the environment contributes, e.g. `(env : Env)`; Lib entries may mention them by name.
+	ExtraParams []Param
+	// Abort: calls that never return and end the function with a reported failure rather than a
+	// panic, e.g. "ts.Fatalf".  When non-empty every result is wrapped: `pure (.ok v)` for a return,
+	// `pure (.fatal <first argument>)` for an abort; the result type becomes Option (GoLib.Res T).
+	Abort map[string]bool
+	// IgnoreAssign: assignments to these targets (printed without blanks, e.g. "ts.line") are dropped —
+	// receiver fields the translated function only writes.
+	IgnoreAssign map[string]bool
+}
+
+type Param struct {
+	Lean string
+	Type string
 }
 
 type Global struct {
@@ -808,6 +826,9 @@ func join(lines []string, rest string) string {
 	return strings.Join(lines, "\n") + "\n" + rest
 }
 
+// abortCalls is set for the duration of one Translate call (calls that never return).
+var abortCalls map[string]bool
+
 // terminates: control never falls out of the end of the statement list.
 func terminates(list []ast.Stmt) bool {
 	if len(list) == 0 {
@@ -837,6 +858,9 @@ func terminates(list []ast.Stmt) bool {
 	case *ast.ExprStmt:
 		if c, ok := s.X.(*ast.CallExpr); ok {
 			if id, ok := c.Fun.(*ast.Ident); ok && id.Name == "panic" {
+				return true
+			}
+			if abortCalls[calleeName(c.Fun)] {
 				return true
 			}
 		}
@@ -873,6 +897,10 @@ func jumps(list []ast.Stmt) bool {
 			case *ast.BranchStmt:
 				found = true
 				_ = v
+			case *ast.CallExpr:
+				if abortCalls[calleeName(v.Fun)] || calleeName(v.Fun) == "panic" {
+					found = true
+				}
 			case *ast.FuncLit:
 				return false
 			}
@@ -953,7 +981,31 @@ func tuple(vs []*varInfo) string {
 	return "(" + strings.Join(parts, ", ") + ")"
 }
 
-func (t *tr) retLean() string { return "Option " + t.ret.Lean() }
+func (t *tr) retLean() string {
+	if len(t.cfg.Abort) > 0 {
+		return "Option (GoLib.Res " + t.ret.Lean() + ")"
+	}
+	return "Option " + t.ret.Lean()
+}
+
+func (t *tr) wrapRet(v string) string {
+	if len(t.cfg.Abort) > 0 {
+		return "pure (GoLib.Res.ok " + paren(v) + ")"
+	}
+	return "pure " + paren(v)
+}
+
+func (t *tr) isAbort(s ast.Stmt) *ast.CallExpr {
+	es, ok := s.(*ast.ExprStmt)
+	if !ok {
+		return nil
+	}
+	c, ok := es.X.(*ast.CallExpr)
+	if !ok || !t.cfg.Abort[calleeName(c.Fun)] {
+		return nil
+	}
+	return c
+}
 
 // auxDef emits `def <name> (params…) : Option R := do <body>` and returns the call text.
 func (t *tr) auxDef(kind string, body func() string) string {
@@ -1007,6 +1059,13 @@ func (t *tr) block(list []ast.Stmt, k func() string) string {
 	case *ast.RangeStmt:
 		return t.rangeStmt(v, rest)
 	case *ast.ExprStmt:
+		if c := t.isAbort(v); c != nil {
+			if len(c.Args) == 0 {
+				t.fail(v, "abort call without a message")
+			}
+			m := t.expr(c.Args[0])
+			return join(m.pre, "pure (GoLib.Res.fatal "+paren(m.s)+")")
+		}
 		if c, ok := v.X.(*ast.CallExpr); ok {
 			switch calleeName(c.Fun) {
 			case "panic":
@@ -1043,7 +1102,7 @@ func (t *tr) returnStmt(r *ast.ReturnStmt) string {
 		}
 	} else if len(r.Results) == 1 && len(want) > 1 { // return f(x)
 		x := t.expr(r.Results[0])
-		return join(x.pre, "pure "+x.s)
+		return join(x.pre, t.wrapRet(x.s))
 	} else {
 		for i, e := range r.Results {
 			x := t.coerce(t.expr(e), want[i])
@@ -1055,7 +1114,7 @@ func (t *tr) returnStmt(r *ast.ReturnStmt) string {
 	if len(parts) > 1 {
 		res = "(" + strings.Join(parts, ", ") + ")"
 	}
-	return join(pre, "pure "+paren(res))
+	return join(pre, t.wrapRet(res))
 }
 
 // simple translates a statement without control flow into `let` lines.
@@ -1101,6 +1160,10 @@ func (t *tr) simple(s ast.Stmt) []string {
 		}
 		return []string{fmt.Sprintf("let %s := %s %s 1", x.lean, x.lean, op)}
 	case *ast.AssignStmt:
+		if len(v.Lhs) == 1 && t.cfg.IgnoreAssign[strings.Join(strings.Fields(t.src(v.Lhs[0])), "")] {
+			x := t.expr(v.Rhs[0]) // still evaluated (it could panic)
+			return x.pre
+		}
 		return t.assign(v)
 	}
 	t.fail(s, "unsupported statement %s", t.src(s))
@@ -1483,10 +1546,24 @@ func Translate(fset *token.FileSet, file *ast.File, names []string, cfg *Config)
 			panic(r)
 		}
 	}()
+	abortCalls = cfg.Abort
+	defer func() { abortCalls = nil }()
 	decls := map[string]*ast.FuncDecl{}
 	for _, d := range file.Decls {
-		if fd, ok := d.(*ast.FuncDecl); ok && fd.Recv == nil {
+		fd, ok := d.(*ast.FuncDecl)
+		if !ok {
+			continue
+		}
+		if fd.Recv == nil {
 			decls[fd.Name.Name] = fd
+		} else if len(fd.Recv.List) == 1 { // methods are named Recv.name
+			rt := fd.Recv.List[0].Type
+			if st, ok := rt.(*ast.StarExpr); ok {
+				rt = st.X
+			}
+			if id, ok := rt.(*ast.Ident); ok {
+				decls[id.Name+"."+fd.Name.Name] = fd
+			}
 		}
 	}
 	var b strings.Builder
@@ -1513,6 +1590,10 @@ func (t *tr) function(fd *ast.FuncDecl) string {
 	t.push()
 	sig := &funcSig{lean: t.fnLean}
 	var ps []string
+	for _, ep := range t.cfg.ExtraParams {
+		vi := t.declare(ep.Lean, &Type{K: KOpaque, Name: ep.Type})
+		ps = append(ps, fmt.Sprintf("(%s : %s)", vi.lean, ep.Type))
+	}
 	for _, f := range fd.Type.Params.List {
 		ty := t.typeExpr(f.Type)
 		for _, n := range f.Names {
@@ -1560,6 +1641,9 @@ func (t *tr) function(fd *ast.FuncDecl) string {
 		}
 		return "none"
 	})
+	if fd.Recv != nil {
+		t.funcs[fd.Recv.List[0].Names[0].Name+"."+fd.Name.Name] = sig
+	}
 	doc := fmt.Sprintf("/-- translated from `func %s` (%s) -/\n", fd.Name.Name, t.fset.Position(fd.Pos()).Filename)
 	main := fmt.Sprintf("%sdef %s %s : %s := do\n%s\n", doc, t.fnLean, strings.Join(ps, " "), t.retLean(), indent(join(pre, body), 2))
 	var b strings.Builder
